@@ -179,6 +179,29 @@ for _ei in range(len(ERR)):
     _make_policy(_ei)
 
 
+@condition(timeout={"quick": 240, "thorough": 600}, functions=["handle_error (two retriers: the FIRST matching retrier decides, also when it is exhausted)"])
+def two_retriers(ei: int, k: int, r0: int, r1: int, m0: int, m1: int, has_catch: bool) -> bool:
+    """
+    requires: ei == 0 and 0 <= k <= 1 and 0 <= r0 < 4 and 0 <= r1 < 4 and 0 <= m0 <= 1 and 1 <= m1 <= 2
+    ensures: _
+    """
+    error = pick(ERR, ei)
+    pool = ee_pool(error)[:4]
+    k = pick([0, 1], k); m0 = pick([0, 1], m0); m1 = pick([0, 1, 2], m1)      # concrete per path
+    retriers = [{"ErrorEquals": pick(pool, r0), "IntervalSeconds": 1, "MaxAttempts": m0, "BackoffRate": 1.0},
+                {"ErrorEquals": pick(pool, r1), "IntervalSeconds": 2, "MaxAttempts": m1, "BackoffRate": 1.0}]
+    catchers = [{"ErrorEquals": ["States.ALL"], "Next": "R0", "ResultPath": "$.err"}] if has_catch else []
+    if not well_formed([r["ErrorEquals"] for r in retriers]):
+        return True
+    got = run_task_failure("Task", retriers, catchers, error, k)
+    want = ref.decide(error, retriers, catchers, k)
+    if want[0] == "retry":
+        return got[0] == "retry" and got[1] == k + 1
+    if want[0] == "catch":
+        return got[0] == "catch" and got[1] == "R0"
+    return got == ("fail", "FAILED", error)
+
+
 @condition(timeout={"quick": 60, "thorough": 120}, functions=["StateEngine.change_state (RetryCount/RetryTimeout cleared)"])
 def counters_do_not_leak(k: int, succeed: bool) -> bool:
     """
